@@ -13,7 +13,7 @@ META = {
  "property": "C13",
  "harnesses": {
   "h_version_perm": {"kind": "G", "functions": _FUNCS,
-    "bounds": "catalogue of 10 documents of 5 lines (pure GFA1 with/without VN, pure GFA2 with/without VN, version-neutral, mixed L+E, mixed S syntaxes, custom record + GFA1 lines, VN contradicting content, unsupported VN) x all 120 arrival orders x version parameter in {None, gfa1, gfa2} x vlevel 1..3 (thorough; quick: vlevel 1)",
+    "bounds": "catalogue of 15 documents of 5 lines (pure GFA1 with/without VN, pure GFA2 with/without VN, version-neutral, mixed L+E, mixed S syntaxes, custom record + GFA1 lines, VN contradicting content, unsupported VN) x all 120 arrival orders x version parameter in {None, gfa1, gfa2} x vlevel 1..3 (thorough; quick: vlevel 1)",
     "timeout": {"quick": 400, "thorough": 1500}, "parts": {"quick": 16, "thorough": 16}},
   "h_version_six": {"kind": "G", "functions": _FUNCS, "tiers": ["thorough"],
     "bounds": "4 documents of 6 lines x all 720 arrival orders x version parameter",
@@ -42,6 +42,11 @@ DOCS5 = [
   [S1a, S1b, L, X, HN],          # custom record with GFA1 lines
   [S1a, S1b, L, H2, CM],         # VN contradicts content
   [S2a, S2b, E, H3, CM],         # unsupported VN
+  [S2a, S2b, L, "U\tu\ta b", CM],       # mixed: the GFA2-only record is a set ...
+  [S2a, S2b, C, "O\to\ta+ b+", HN],     # ... an ordered group
+  [S2a, S2b, P, G, CM],                # ... a gap
+  [S2a, S2b, L, "F\ta\tr+\t0\t1\t0\t1\t*", X],   # ... a fragment
+  [S1a, S1b, L, C, "U\tu\ta b"],        # GFA1 document with one set line
 ]
 DOCS6 = [
   [S1a, S1b, L, P, C, H1],
@@ -50,6 +55,7 @@ DOCS6 = [
   [S2a, S2b, E, G, H2, L],
 ]
 VERS = [None, "gfa1", "gfa2"]
+ND5 = len(DOCS5)
 
 def expected(doc, version, dialect="standard"):
   """order-free: -> 'gfa1' | 'gfa2' | 'VersionError' (DESIGN.md A4)"""
@@ -108,7 +114,7 @@ NV = vp.T(1, 3)
 
 def h_version_perm(d: int, code: int, v: int, vl: int) -> bool:
   """
-  pre: 0 <= d < 10 and 0 <= code < 120 and 0 <= v < 3 and 1 <= vl <= NV
+  pre: 0 <= d < ND5 and 0 <= code < 120 and 0 <= v < 3 and 1 <= vl <= NV
   pre: (code + d) % NPART == PART
   post: _ == True
   """
